@@ -142,10 +142,72 @@ def accepts(w, v):
     # 8: a state_key starting with '@' must be the sender
     rest.append(z3.Not(z3.And(sk == 2, z3.Not(T.eq(S)))))
     rest.append(sk != 3)
+    if kind == 'power_levels':
+        w.oracle = {'prefix': z3.And(pre, *rest), 'plS': plS, 'R': R}      # for the compositional split of rule 9 (see c08.py)
+        rest.append(power_levels_rules(w, v, R, plS, app))
     if kind == 'redaction' and R['redaction_special']:
         # v1-v2 rule: allow if level >= redact level, or the redacted event id has the redaction's domain
         rest.append(z3.Or(plS >= level(w, 'redact'), w.redacts_same_server))
     return z3.And(pre, *rest), z3.And(*app)
+
+
+def power_levels_rules(w, v, R, plS, app, cur_present=None):
+    """rule 9 (m.room.power_levels): content validation, then every added / changed / removed entry is compared with
+    the sender's current level.  `cur` = the power-levels event in the state, `new` = the incoming content."""
+    cur, new = w.pl, w.pl_new
+    conds = []
+    # 9.1/9.2: well-typed content.  Malformed JSON types reject; string-typed integers are accepted before v10 only.
+    valid = [z3.Not(new['malformed'])]
+    for f in new['ints'].values():
+        valid.append(f.tag != 2)
+        if R['integer_pl']:
+            valid.append(z3.Not(z3.And(f.ok(), f.is_str)))
+    for mp in ('users', 'events', 'notifications'):
+        valid.append(new[mp]['tag'] != 2)
+        if R['integer_pl']:
+            for e in new[mp]['entries']:
+                valid.append(z3.Not(z3.And(new[mp]['tag'] == 1, e['present'], e['is_str'])))
+    # a map has one value per key (coinciding roles share their entry)
+    roles = {'sender': w.sender, 'target': w.target, 'authoriser': w.authoriser, 'creator': w.creator}
+    ents = {e['name']: e for e in new['users']['entries']}
+    names = list(ents)
+    for i in range(len(names)):
+        for j in range(i + 1, len(names)):
+            x, y = ents[names[i]], ents[names[j]]
+            app.append(z3.Implies(roles[names[i]].eq(roles[names[j]]), z3.And(x['present'] == y['present'], x['v'] == y['v'], x['is_str'] == y['is_str'])))
+    # 9.3: no current power levels -> allow
+    checks = []
+    # 9.4: the seven integer properties
+    for n in cur['ints']:
+        c, nw = cur['ints'][n], new['ints'][n]
+        same = z3.Or(z3.And(c.absent(), nw.absent()), z3.And(c.ok(), nw.ok(), c.v == nw.v))
+        cv = z3.If(c.ok(), c.v, z3.BitVecVal(DEFAULTS[n], 64))
+        nv = z3.If(nw.ok(), nw.v, z3.BitVecVal(DEFAULTS[n], 64))
+        checks.append(z3.Or(same, z3.And(cv <= plS, nv <= plS)))
+
+    def map_checks(which, own_entry_rule):
+        cm, nm = cur[which], new[which]
+        out = []
+        for ce, ne in zip(cm['entries'], nm['entries']):
+            cp = z3.And(cm['tag'] == 1, ce['present'])
+            np_ = z3.And(nm['tag'] == 1, ne['present'])
+            same = z3.Or(z3.And(z3.Not(cp), z3.Not(np_)), z3.And(cp, np_, ce['v'] == ne['v']))
+            cur_bad = z3.And(cp, own_entry_rule(ce, ne))
+            new_bad = z3.And(np_, ne['v'] > plS)
+            out.append(z3.Or(same, z3.And(z3.Not(cur_bad), z3.Not(new_bad))))
+        return out
+    # 9.5 events: changed / removed entries with a current value above the sender's level, new values above it
+    checks += map_checks('events', lambda ce, ne: ce['v'] > plS)
+    # 9.6 (v6+) notifications
+    if v >= 6:
+        checks += map_checks('notifications', lambda ce, ne: ce['v'] > plS)
+    # 9.7 users: other users' entries at or above the sender's level cannot be changed or removed
+    def users_rule(ce, ne):
+        owner = roles[ce['name']]
+        return z3.And(z3.Not(owner.eq(w.sender)), ce['v'] >= plS)
+    checks += map_checks('users', users_rule)
+    cur_present = w.pl_present if cur_present is None else z3.BoolVal(cur_present)
+    return z3.And(z3.And(*valid), z3.Or(z3.Not(cur_present), z3.And(*checks)))
 
 
 def member_rules(w, v, R, mS, mT, mA, plS, plT, plA, app):
@@ -234,23 +296,7 @@ def concretise(w, m, version):
     etype = {'member': 'm.room.member', 'message': 'm.room.message', 'state': 'm.room.topic', 'aliases': 'm.room.aliases', 'redaction': 'm.room.redaction',
              'third_party_invite': 'm.room.third_party_invite', 'power_levels': 'm.room.power_levels', 'create': 'm.room.create'}[kind]
     if tv(w.pl_present):
-        c = {}
-        if tv(w.pl['malformed']):
-            c = 'MALFORMED'
-        else:
-            for n, f in w.pl['ints'].items():
-                if fld(f) == 1: c[n] = str(sint(f.v)) if tv(f.is_str) else sint(f.v)
-                elif fld(f) == 2: c[n] = [1]
-            for mp, keyf in (('users', lambda e: users[{'sender': 'sender', 'target': 'target', 'authoriser': 'authoriser', 'creator': 'creator'}[e['name']]]),
-                             ('events', lambda e: etype if e['name'] == 'evtype' else 'm.room.name'), ('notifications', lambda e: 'room')):
-                tag = iv(w.pl[mp]['tag'])
-                if tag == 2: c[mp] = 'bad'
-                elif tag == 1:
-                    d = {}
-                    for e in w.pl[mp]['entries']:
-                        if tv(e['present']):
-                            d[keyf(e)] = str(sint(e['v'])) if tv(e['is_str']) else sint(e['v'])
-                    c[mp] = d
+        c = pl_content_json(w.pl, users, etype, tv, iv, sint)
         state.append({'type': 'm.room.power_levels', 'state_key': '', 'sender': users['creator'], 'content': c, 'event_id': '$o:x'})
     skk = iv(w.state_key_kind)
     state_key = {0: None, 1: '', 2: users['target'], 3: '@zz', 4: users['sender'].split(':')[1], 5: 'q'}[skk]
@@ -262,6 +308,8 @@ def concretise(w, m, version):
         elif fld(w.ev_authorised_via) == 2: content['join_authorised_via_users_server'] = 5
         if fld(w.ev_tpi) == 1: content['third_party_invite'] = {'signed': {'mxid': users['target'], 'token': 't', 'signatures': {}}}
         elif fld(w.ev_tpi) == 2: content['third_party_invite'] = 5
+    if kind == 'power_levels':
+        content = pl_content_json(w.pl_new, users, etype, tv, iv, sint)
     incoming = {'type': etype, 'sender': users['sender'], 'content': content, 'event_id': '$e:x',
                 'auth_events': ['$c:x'] if tv(w.create_in_auth) else ['$o:x'],
                 'prev_events': ['$c:x'] if tv(w.prev_only_create) else ['$o:x', '$c:x']}
@@ -271,6 +319,27 @@ def concretise(w, m, version):
         incoming['redacts'] = '$z:x' if tv(w.redacts_same_server) else '$z:w'
     summary = {'version': version, 'incoming': incoming, 'state': [{k: s[k] for k in ('type', 'state_key', 'sender', 'content')} for s in state]}
     return {'op': 'c08:auth', 'version': str(version), 'incoming': incoming, 'state': state, 'summary': summary}
+
+
+def pl_content_json(pl, users, etype, tv, iv, sint):
+    if tv(pl['malformed']):
+        return 'MALFORMED'
+    c = {}
+    for n, f in pl['ints'].items():
+        t = iv(f.tag)
+        if t == 1: c[n] = str(sint(f.v)) if tv(f.is_str) else sint(f.v)
+        elif t == 2: c[n] = [1]
+    for mp, keyf in (('users', lambda e: users[e['name']]), ('events', lambda e: etype if e['name'] == 'evtype' else 'm.room.name'),
+                     ('notifications', lambda e: 'room')):
+        tag = iv(pl[mp]['tag'])
+        if tag == 2: c[mp] = 'bad'
+        elif tag == 1:
+            d = {}
+            for e in pl[mp]['entries']:
+                if tv(e['present']):
+                    d[keyf(e)] = str(sint(e['v'])) if tv(e['is_str']) else sint(e['v'])
+            c[mp] = d
+    return c
 
 
 def classify_finding(vec):
